@@ -716,3 +716,52 @@ def r15_ceil_guarded(ck, P):
                 ck.violation(R, fn, 'rounding up at %s' % x.loc(), '%s rounds a 16.16 value up by adding 0xffff in 32 bits without a test on the way that keeps the value at or below 0x7fff0000: a transformed coordinate in (32767.0, 32768.0) wraps to -32768.0 and the result is reported as valid' % fn, x.loc())
     if n == 0:
         raise AnalysisBroken('C11-R15: no rounding up (x + 0xffff) found in pixman-matrix.c')
+
+
+def r16_elementary_updates_are_products(ck, P):
+    """T-WHO with a licensed exception: pixman_transform_scale / rotate / translate update the caller's forward and reverse matrices with
+    the matrix product (pixman_transform_multiply).  A store straight into an entry of such a matrix is the same thing only where the
+    bottom row is (0, 0, 1) - the guards on the path have to say so for all three entries."""
+    R = ck.rule('C11-R16', 'in pixman_transform_scale, _rotate and _translate the caller\'s matrices are written by pixman_transform_multiply only, or by a direct store on a path whose guards establish matrix[2][0] == 0, matrix[2][1] == 0 and matrix[2][2] == pixman_fixed_1 of that same matrix: the product with a translation adds tx * matrix[2][2] to the last column (and tx * matrix[2][k] to the others), not tx', floor=6)
+    u = P.units.get(UNIT)
+    if u is None:
+        raise AnalysisBroken('pixman-matrix.c not compiled')
+    n = 0
+    for fn in ('pixman_transform_scale', 'pixman_transform_rotate', 'pixman_transform_translate'):
+        f = u.functions.get(fn)
+        if f is None:
+            raise AnalysisBroken('C11-R16: %s not found' % fn)
+        ck.saw(f)
+        mp = [i for i, (pn, pt) in enumerate(f.params) if 'pixman_transform' in pt]
+        for k in mp:
+            calls = [c for c in f.calls('pixman_transform_multiply') if c.a and list(c.a[0]) == ['a', k]]
+            stores = [x for x in f.insts() if x.op == 'store' and f.root(f.path(x.a[1])) == ('arg', k) and 'pixman_transform.matrix' in [str(q) for q in f.path(x.a[1])[1]]]
+            pn = f.params[k][0]
+            for c in calls:
+                n += 1
+                ck.ok(R, '%s: %s updated by the matrix product at %s' % (fn, pn, c.loc()))
+            for x in stores:
+                n += 1
+                have = set()
+                for t, s_ in f.guard_edges(x.bb.id):
+                    if not t.a:
+                        continue
+                    cc, p, ops = f.cond(t.a[0])
+                    if cc is None or cc.op != 'icmp' or p not in ('eq', 'ne') or (p == 'eq') != (t.d['succ'][0] == s_):
+                        continue
+                    for o in ops:
+                        y = f.v(f.strip_casts(o))
+                        if y is None or y.op != 'load' or f.root(f.path(y.a[0])) != ('arg', k):
+                            continue
+                        st = [str(q) for q in f.path(y.a[0])[1]]
+                        if 'pixman_transform.matrix' in st and len(st) >= 3 and st[-2] == '[2]':
+                            cst = [int(q[1]) for q in ops if q[0] == 'c']
+                            if cst and ((st[-1] in ('[0]', '[1]') and cst[0] == 0) or (st[-1] == '[2]' and cst[0] == 65536)):
+                                have.add(st[-1])
+                where = '%s: direct store into %s at %s' % (fn, pn, x.loc())
+                if have >= {'[0]', '[1]', '[2]'}:
+                    ck.ok(R, where, 'under bottom row == (0, 0, 1)')
+                else:
+                    ck.violation(R, fn, 'direct store into %s' % pn, '%s writes an entry of the caller\'s %s matrix directly at %s, on a path that establishes only %s of the bottom row (0, 0, 1): for a matrix with matrix[2][2] != 1 (an affine matrix scaled as a whole is still affine) the product with the elementary matrix differs from the value stored, and its overflow is not the overflow tested' % (fn, pn, x.loc(), sorted(have) or 'nothing'), x.loc())
+    if n < 6:
+        raise AnalysisBroken('C11-R16: only %d updates of caller matrices found in scale / rotate / translate' % n)
